@@ -46,6 +46,18 @@ def power_lattice(rng, tier):
         zero_cells=(1,))
     one('p-pins-only', bundle_type(2), ncell=2, comps=('pins',))
     one('p-duct-cool-only', bundle_type(2), ncell=2, comps=('duct', 'cool'))
+    # every other subset of components, with curved shapes (a renormalisation
+    # that loses a component, or is skipped, shows only then)
+    one('p-pins-duct-quad', bundle_type(2), ncell=3, power_order=2,
+        comps=('pins', 'duct'))
+    one('p-pins-cool-quad', bundle_type(2), ncell=2, power_order=2,
+        comps=('pins', 'cool'))
+    one('p-duct-only-quad', bundle_type(2), ncell=3, power_order=2,
+        comps=('duct',))
+    one('p-cool-only-quad', bundle_type(2), ncell=2, power_order=2,
+        comps=('cool',))
+    one('p-duct-cool-quad', bundle_type(2), power_order=2,
+        comps=('duct', 'cool'), cell_bounds=[0.0, 0.07, 0.31, 0.6])
     one('p-uneven-cells', bundle_type(2), power_order=2,
         cell_bounds=[0.0, 0.07, 0.31, 0.6])
 
